@@ -1,3 +1,58 @@
-From NP Require Import Base.
-Theorem placeholder_C17 : True. Proof. exact I. Qed.
-Print Assumptions placeholder_C17.
+(* C17 — the nested dtype is a faithful, stable description of the column.
+   name = "nested<" ++ ", ".join(name ++ ": [" ++ type ++ "]") ++ ">" and the parser of construct_from_string
+   (prefix/suffix test, split(", "), split(": ", maxsplit=1), bracket test, case-insensitive alias lookup) are modelled in
+   Dtype.v over strings as code-point lists.  For EVERY field list with distinct names free of the separators ", " and
+   ": " and element types that are aliases of themselves, the name parses back to exactly that dtype; hence the name
+   determines the dtype; an element type whose rendering is not an alias is REFUSED, never mis-parsed; strings that are
+   not nested<...> are refused.  The side condition on element types is discharged for the WHOLE alias catalogue of the
+   installed pyarrow by computation over gen/AliasTable.v, which is regenerated from the live library on every run
+   (C17_catalogue_is_simple: 55 aliases on pyarrow 25.0.1; the bound is the table itself). *)
+From Coq Require Import String List Arith Bool.
+Import ListNotations.
+From NP Require Import Base Values Dtype Proofs_Dtype Proofs_DtypeCat.
+From NPgen Require Import AliasTable.
+
+Theorem C17_name_parses_back : forall table d, dtype_ok table d = true -> parse_name table (render_name d) = Ok d.
+Proof. exact parse_render. Qed.
+Print Assumptions C17_name_parses_back.
+
+Theorem C17_name_determines_dtype : forall table d1 d2, dtype_ok table d1 = true -> dtype_ok table d2 = true ->
+  render_name d1 = render_name d2 -> d1 = d2.
+Proof. exact render_injective. Qed.
+Print Assumptions C17_name_determines_dtype.
+
+Theorem C17_non_alias_type_refused : forall table d,
+  d <> [] -> forallb name_ok (map fst d) = true ->
+  forallb (fun t => negb (has_sep COMMA SPACE t)) (map snd d) = true ->
+  existsb (fun t => match alias_of table t with None => true | Some _ => false end) (map snd d) = true ->
+  parse_name table (render_name d) = Err.
+Proof. exact parse_refuses_non_alias. Qed.
+Print Assumptions C17_non_alias_type_refused.
+
+Theorem C17_wrapper_required : forall table s,
+  starts_with nested_prefix s && ends_with [GT] s = false -> parse_name table s = Err.
+Proof. exact parse_requires_wrapper. Qed.
+Print Assumptions C17_wrapper_required.
+
+Theorem C17_split_inverts_join : forall c1 c2 ps, c1 <> c2 -> ps <> [] ->
+  forallb (fun p => negb (has_sep c1 c2 p)) ps = true -> py_split c1 c2 (join2 c1 c2 ps) = ps.
+Proof. exact split_join. Qed.
+Print Assumptions C17_split_inverts_join.
+
+(* every non-parametric element type of the live catalogue renders to a string the parser accepts as itself *)
+Theorem C17_catalogue_is_simple : forallb (fun kv => type_simple alias_table (snd kv)) alias_table = true.
+Proof. exact catalogue_is_simple. Qed.
+Print Assumptions C17_catalogue_is_simple.
+
+(* hence: any dtype over catalogue element types with admissible names round-trips *)
+Theorem C17_catalogue_roundtrip : forall d,
+  negb (length d =? 0) = true -> names_distinct (map fst d) = true -> forallb name_ok (map fst d) = true ->
+  (forall t, In t (map snd d) -> In t (map snd alias_table)) ->
+  parse_name alias_table (render_name d) = Ok d.
+Proof. exact catalogue_roundtrip. Qed.
+Print Assumptions C17_catalogue_roundtrip.
+
+Example C17_nonvacuous :
+  let d := [([109; 121; 32; 102], [105; 110; 116; 54; 52]); ([116], [116; 105; 109; 101; 115; 116; 97; 109; 112; 91; 110; 115; 93])] in
+  dtype_ok alias_table d = true /\ parse_name alias_table (render_name d) = Ok d.
+Proof. split; vm_compute; reflexivity. Qed.
